@@ -215,7 +215,7 @@ func fromJSONAny(fr *frame, j *jval, mode int64) value {
 		case numFloat:
 			if t, ok := j.n.(*Term); ok {
 				fr.i.m.note("A-jose/json: integer claims are within ±2^53, so their float64 decoding is exact")
-				return iface{types.Typ[types.Float64], symFloat{t}}
+				return iface{types.Typ[types.Float64], symFloat{t: t}}
 			}
 			return iface{types.Typ[types.Float64], float64(j.n.(int64))}
 		}
